@@ -303,11 +303,11 @@ def registry():
     def _(rng, form):
         from scipy.spatial.transform import Rotation
         rot = Rotation.from_euler('xyz', rng.uniform(-10, 10, (40, 3)), True)
-        return transform.smooth_rotations, [rot, 0.1, 0.5], {}
+        return transform.smooth_rotations, [rot, 0.1, float(rng.uniform(0.26, 0.94))], {}       # many ratios share a window length
 
     @reg('transform.smooth_state', kind='same_columns_as_arg0')
     def _(rng, form):
-        return transform.smooth_state, [traj(rng, 60), 0.5], {}
+        return transform.smooth_state, [traj(rng, 60), float(rng.uniform(0.26, 0.94))], {}
 
     @reg('transform.mat_en_from_ll', forms=('array', 'list'))
     def _(rng, form):
@@ -415,7 +415,11 @@ def registry():
                 em = error_model.InsErrorModel(bool(rng.rand() < 0.5))
                 args = [pva(rng, True)]
                 if jac != 'body_velocity_error_jacobian':
-                    args.append(as_form(np.array([1.0, -0.5, 0.3]), form))
+                    k = rng.randint(3)                 # lever arm given, given as None, or left at its default
+                    if k == 0:
+                        args.append(as_form(np.array([1.0, -0.5, 0.3]), form))
+                    elif k == 1:
+                        args.append(None)
                 return getattr(em, jac), args, {}
             return b
         R[f'error_model.InsErrorModel.{jac}'] = dict(build=mk(), forms=('array', 'list'), kind=None)
@@ -719,6 +723,7 @@ def execute(ctx, name, sub, form):
     r3 = out_equal(out1, out3)
     ctx.check(r3 is None, f'not_repeatable:{name}', lambda: f'{name}: repeating the call on the same argument objects differs: {r3}')
     check_schema(ctx, name, e['kind'], args, out1)
+    check_history_free(ctx, name, sub, form, out1, e)
     return out1, args
 
 
@@ -746,6 +751,57 @@ def entry_forms(name):
 def base_form(name, form):
     b = get_registry()[name]['forms'][0]
     return b + '+ival' if form.endswith('+int') else b
+
+
+def _scribble(x, done):
+    """Overwrite every writable float ndarray inside a result in place; `done` collects (array, saved copy) pairs so that the
+    values can be put back (a result that is a window onto shared state must not stay corrupted for the rest of the run)."""
+    if isinstance(x, np.ndarray):
+        if x.flags.writeable and x.dtype.kind == 'f' and x.size:
+            done.append((x, x.copy()))
+            x[...] = 12345.678
+    elif isinstance(x, (list, tuple)):
+        for v in x:
+            _scribble(v, done)
+    elif isinstance(x, dict):
+        for v in x.values():
+            _scribble(v, done)
+
+
+def check_history_free(ctx, name, sub, form, out1, e):
+    """(i) The result for given arguments does not depend on which OTHER arguments the callable saw just before (a result
+    remembered under too coarse a key); (ii) what a caller does to a returned array does not change later results for equal
+    arguments (a result that is a window onto hidden shared state). A result that aliases one of the ARGUMENTS (or the object
+    the method is bound to) is the caller's own data and is not judged."""
+    build = e['build']
+    if e['kind'] != 'filter':
+        for k in (1, 2, 3):
+            fnp, argsp, kwp = build(np.random.RandomState(sub + k), form)
+            ctx.sut(fnp, *argsp, **kwp)
+            fn4, args4, kw4 = build(np.random.RandomState(sub), form)
+            r = out_equal(out1, ctx.sut(fn4, *args4, **kw4))
+            ctx.check(r is None, f'depends_on_previous_call:{name}',
+                      lambda: f'{name}: the result for the same arguments differs after a call with other arguments ({r})')
+    fn, args, kw = build(np.random.RandomState(sub), form)
+    held = [args, kw] + ([fn.__self__] if hasattr(fn, '__self__') else [])
+    res = ctx.sut(fn, *args, **kw)
+    before_res, before_args = snap(res), snap(held)
+    done = []
+    _scribble(res, done)
+    if not done:
+        return
+    try:
+        if snap(held) != before_args:
+            ctx.label('result_aliases_argument')
+            return
+        fn2, args2, kw2 = build(np.random.RandomState(sub), form)
+        same = snap(ctx.sut(fn2, *args2, **kw2)) == before_res
+    finally:
+        for arr, saved in done:
+            arr[...] = saved
+    ctx.check(same, f'result_aliases_hidden_state:{name}',
+              lambda: f'{name}: after the caller overwrote a returned array, a call with equal arguments returns different values')
+    ctx.label('result_overwrite_checked')
 
 
 def run_entry(case, ctx):
@@ -887,25 +943,35 @@ def run_sweep(case, ctx):
 
 
 def seq_strategy():
-    return st.fixed_dictionaries({'calls': st.lists(st.tuples(st.integers(0, 10 ** 6), st.integers(0, 50)), min_size=3, max_size=12),
+    # a third element True sends the call to the case's `focus` entry: histories that return to ONE callable with different
+    # arguments are where a result remembered under too coarse a key shows
+    return st.fixed_dictionaries({'calls': st.lists(st.tuples(st.integers(0, 10 ** 6), st.integers(0, 50), st.booleans()), min_size=3, max_size=12),
+                                  'focus': st.integers(0, 10 ** 6),
                                   'reissue': st.lists(st.integers(0, 11), min_size=1, max_size=6)})
 
 
 def run_sequence(case, ctx):
     nm = names()
     first = []
-    for (ei, sub) in case['calls']:
+    for call in case['calls']:
+        ei, sub = call[0], call[1]
+        if len(call) > 2 and call[2]:
+            ei = case.get('focus', ei)
         name = nm[ei % len(nm)]
         e = get_registry()[name]
         fn, args, kw = e['build'](np.random.RandomState(sub), e['forms'][0])
-        first.append((name, sub, ctx.sut(fn, *args, **kw)))
+        out = ctx.sut(fn, *args, **kw)
+        first.append((name, sub, out, snap(out)))
     for j in case['reissue']:
-        name, sub, out = first[j % len(first)]
+        name, sub, out, _ = first[j % len(first)]
         e = get_registry()[name]
         fn, args, kw = e['build'](np.random.RandomState(sub), e['forms'][0])
         again = ctx.sut(fn, *args, **kw)
         r = out_equal(out, again)
         ctx.check(r is None, f'hidden_state:{name}', lambda: f'{name}: result after other calls differs from its first result: {r}')
+    # a result handed out earlier stays what it was (no result is a window onto a buffer that later calls overwrite)
+    for name, sub, out, before in first:
+        ctx.check(snap(out) == before, f'earlier_result_changed:{name}', lambda: f'{name}: the object returned earlier changed during later calls')
     ctx.label(f'calls={len(case["calls"])}')
     ctx.mark_nontrivial(len({c[0] % len(nm) for c in case['calls']}) >= 3)
 
